@@ -73,6 +73,8 @@ struct Graph {
     /// paint at this entry of the fixed location list instead of a random one
     force_coords: Option<usize>,
     salt: u16,
+    /// record-count patch applied to the compiled bytes (family `unsorted`), see `apply_count_patch`
+    patch: u8,
 }
 
 impl Graph {
@@ -113,9 +115,31 @@ impl Graph {
             Node::Composite { src, mode, backdrop } => format!("GComposite {} {} {}", src, mode, backdrop),
         });
         let layers = copt(self.layers.as_ref().map(|l| clist(l.iter(), |r| format!("{}", r))));
-        let base = copt(self.base.as_ref().map(|l| clist(l.iter(), |(g, r)| format!("({},{})", g, r))));
-        let clips = clist(self.clips.iter(), |(a, b)| format!("({},{})", a, b));
-        let v0b = copt(self.v0base.as_ref().map(|l| clist(l.iter(), |(g, s, n)| format!("({},({},{}%nat))", g, s, n))));
+        // what the reader sees once the record counts are patched: count beyond the data = the list does not
+        // parse (None / no clip), count 0 = empty list, count n-1 = prefix
+        let mut m_base = self.base.clone();
+        let mut m_clips = self.clips.clone();
+        let mut m_v0b = self.v0base.clone();
+        match self.patch {
+            1 => m_base = None,
+            2 => m_base = Some(vec![]),
+            3 => m_clips = vec![],
+            4 => m_clips = vec![],
+            5 => m_v0b = None,
+            6 => m_v0b = Some(vec![]),
+            7 => {
+                if let Some(b) = m_base.as_mut() {
+                    b.pop();
+                }
+            }
+            8 => {
+                m_clips.pop();
+            }
+            _ => {}
+        }
+        let base = copt(m_base.as_ref().map(|l| clist(l.iter(), |(g, r)| format!("({},{})", g, r))));
+        let clips = clist(m_clips.iter(), |(a, b)| format!("({},{})", a, b));
+        let v0b = copt(m_v0b.as_ref().map(|l| clist(l.iter(), |(g, s, n)| format!("({},({},{}%nat))", g, s, n))));
         let v0l = copt(self.v0layers.as_ref().map(|l| clist(l.iter(), |(g, p)| format!("({},{})", g, p))));
         format!("mkG {} {} {} {} {} {}", nodes, layers, base, clips, v0b, v0l)
     }
@@ -341,7 +365,150 @@ fn compile(g: &Graph) -> Option<Vec<u8>> {
         }
         bytes[hits[0]] = 0xFF;
     }
+    if g.patch != 0 {
+        apply_count_patch(&mut bytes, g)?;
+    }
     Some(bytes)
+}
+
+fn rd32(b: &[u8], at: usize) -> Option<usize> {
+    Some(u32::from_be_bytes(b.get(at..at + 4)?.try_into().ok()?) as usize)
+}
+/// Record counts that disagree with the data (the records themselves stay in place):
+/// 1 BaseGlyphList.numBaseGlyphPaintRecords = 0x10000000 (beyond the file), 2 = 0 with records present,
+/// 3 ClipList.numClips = 0x10000000, 4 = 0, 5 numBaseGlyphRecords (v0) = 0xFFFF, 6 = 0,
+/// 7 BaseGlyphList count = n-1, 8 ClipList count = n-1.
+/// Also checks that write-fonts kept the (unsorted) record order; None if it did not.
+fn apply_count_patch(bytes: &mut [u8], g: &Graph) -> Option<()> {
+    let t = rd32(bytes, 12 + 8)?; // single table: COLR
+    let put32 = |b: &mut [u8], at: usize, v: u32| b[at..at + 4].copy_from_slice(&v.to_be_bytes());
+    let bl = t + rd32(bytes, t + 14)?;
+    let cl = t + rd32(bytes, t + 22)?;
+    let nb = rd32(bytes, bl)?;
+    let nc = rd32(bytes, cl + 1)?;
+    if nb != g.base.as_ref().map(|b| b.len()).unwrap_or(0) || nc != g.clips.len() {
+        return None;
+    }
+    match g.patch {
+        1 => put32(bytes, bl, 0x1000_0000),
+        2 => put32(bytes, bl, 0),
+        3 => put32(bytes, cl + 1, 0x1000_0000),
+        4 => put32(bytes, cl + 1, 0),
+        5 => bytes[t + 2..t + 4].copy_from_slice(&0xFFFFu16.to_be_bytes()),
+        6 => bytes[t + 2..t + 4].copy_from_slice(&0u16.to_be_bytes()),
+        7 => put32(bytes, bl, (nb as u32).saturating_sub(1)),
+        8 => put32(bytes, cl + 1, (nc as u32).saturating_sub(1)),
+        _ => {}
+    }
+    Some(())
+}
+
+/// true iff the compiled table lists base glyph / clip / v0 records in exactly the order of the graph
+fn order_kept(bytes: &[u8], g: &Graph) -> bool {
+    let Some(t) = rd32(bytes, 12 + 8) else { return false };
+    let u16at = |at: usize| bytes.get(at..at + 2).map(|b| u16::from_be_bytes([b[0], b[1]]));
+    let mut ok = true;
+    if let Some(b) = &g.base {
+        if let Some(off) = rd32(bytes, t + 14) {
+            let bl = t + off;
+            for (k, (gid, _)) in b.iter().enumerate() {
+                ok &= u16at(bl + 4 + 6 * k) == Some(*gid);
+            }
+        }
+    }
+    if let Some(off) = rd32(bytes, t + 22) {
+        let cl = t + off;
+        for (k, (a, e)) in g.clips.iter().enumerate() {
+            ok &= u16at(cl + 5 + 7 * k) == Some(*a) && u16at(cl + 5 + 7 * k + 2) == Some(*e);
+        }
+    }
+    if let Some(v) = &g.v0base {
+        if let Some(off) = rd32(bytes, t + 4) {
+            for (k, (gid, s, n)) in v.iter().enumerate() {
+                ok &= u16at(t + off + 6 * k) == Some(*gid) && u16at(t + off + 6 * k + 2) == Some(*s) && u16at(t + off + 6 * k + 4) == Some(*n);
+            }
+        }
+    }
+    ok
+}
+
+/// BaseGlyphList / baseGlyphRecords / ClipList that are UNSORTED, with duplicate glyph ids, overlapping /
+/// nested / touching / inverted (start > end) clip ranges; `patch` = record-count disagreement (0 = none)
+fn unsorted_graph(rng: &mut Rng, patch: u8, style: u32) -> Graph {
+    let mut g = Graph::default();
+    let nb = rng.range(2, 10) as usize;
+    let mut base: Vec<(u16, usize)> = vec![];
+    let mut layers = vec![];
+    for k in 0..nb {
+        let gid = rng.range(0, 9) as u16;
+        let leaf = g.solid();
+        let p = match rng.range(0, 6) {
+            0 => leaf,
+            1 => g.xf(14, leaf),
+            2 => g.add(Node::ColrGlyph { gid: rng.range(0, 10) as u16 }),
+            3 => g.add(Node::Glyph { gid: 20 + k as u16, child: leaf }),
+            4 => {
+                let c = g.add(Node::ColrGlyph { gid: rng.range(0, 10) as u16 });
+                g.xf(16, c)
+            }
+            _ => {
+                layers.push(leaf);
+                let c = g.add(Node::ColrGlyph { gid: rng.range(0, 10) as u16 });
+                layers.push(c);
+                g.add(Node::Layers { start: (layers.len() - 2) as u32, num: 2 })
+            }
+        };
+        base.push((gid, p));
+    }
+    let nc = rng.range(0, 7) as usize;
+    let mut clips: Vec<(u16, u16)> = (0..nc)
+        .map(|_| {
+            let a = rng.range(0, 10) as u16;
+            match rng.range(0, 5) {
+                0 => (a, a),
+                1 => (a, a + rng.range(0, 5) as u16),
+                2 => (a + rng.range(1, 4) as u16, a), // start > end
+                3 => (0, 9),                          // encloses everything (nested)
+                _ => (a, a + 1),                      // touching / overlapping its neighbours
+            }
+        })
+        .collect();
+    match style % 4 {
+        0 => {} // random order
+        1 => {
+            base.sort_by_key(|r| r.0); // sorted, duplicates adjacent
+            clips.sort();
+        }
+        2 => {
+            base.sort_by_key(|r| std::cmp::Reverse(r.0));
+            clips.sort_by_key(|r| std::cmp::Reverse(*r));
+        }
+        _ => {
+            // sorted but for one rotated element
+            base.sort_by_key(|r| r.0);
+            base.rotate_left(1);
+            clips.sort();
+            if !clips.is_empty() {
+                clips.rotate_left(1);
+            }
+        }
+    }
+    g.base = Some(base);
+    g.layers = Some(layers);
+    g.clips = clips;
+    g.clip_salt = rng.range(0, 6) as u32;
+    if rng.chance(1, 2) || patch == 5 || patch == 6 {
+        let nl = 4u16;
+        g.v0layers = Some((0..nl).map(|k| (30 + k, k)).collect());
+        let nv = rng.range(1, 7) as usize;
+        let mut v: Vec<(u16, u16, u16)> = (0..nv).map(|_| (rng.range(0, 11) as u16, rng.range(0, 4) as u16, rng.range(0, 3) as u16)).collect();
+        if style % 4 == 1 {
+            v.sort();
+        }
+        g.v0base = Some(v);
+    }
+    g.patch = patch;
+    g
 }
 
 // ---------------------------------------------------------------- recording client
@@ -900,9 +1067,9 @@ fn main() {
     start_watchdog(dir.clone());
     let mut cw = CaseWriter::new(
         &dir,
-        "From Coq Require Import NArith List. Import ListNotations. Open Scope N_scope.\nFrom FV Require Import Lib.Cases C13.Model.",
+        "From Coq Require Import NArith List. Import ListNotations. Open Scope N_scope.\nFrom FV Require Import Lib.Cases C13.Model C13.Lookup.",
         "graph * list (N * N * (N * list cb))",
-        "check_case",
+        "check_case2",
         if thorough { 120 } else { 60 },
     );
     let coords_sets: Vec<Vec<F2Dot14>> = vec![vec![], vec![f2(1.0)], vec![f2(0.5)], vec![f2(-1.0)], vec![f2(0.25), f2(-0.5)]];
@@ -1253,6 +1420,22 @@ fn main() {
         gids.dedup();
         let modes: &[u8] = if i % 2 == 0 { &[0, 1] } else { &[2, 3] };
         run_graph(&g, "random", &gids, modes, &mut rng, &mut st, &mut cw);
+    }
+    // ---- 6. unsorted / duplicate / overlapping lookup tables and record counts that disagree with the data
+    for i in 0..(if thorough { 1500u32 } else { 180 }) {
+        let patch = if i % 3 == 2 { 1 + ((i / 3) % 8) as u8 } else { 0 };
+        let g = unsorted_graph(&mut rng, patch, i / 2);
+        if let Some(b) = { let mut g0 = g.clone(); g0.patch = 0; compile(&g0) } {
+            if !order_kept(&b, &g) {
+                st.count("unsorted.order_not_kept_by_write_fonts");
+                continue;
+            }
+        }
+        let sorted = g.base.iter().flatten().zip(g.base.iter().flatten().skip(1)).all(|(a, b)| a.0 < b.0);
+        st.count(if sorted { "unsorted.base_list_happens_to_be_strictly_sorted" } else { "unsorted.base_list_unsorted_or_dup" });
+        st.count(&format!("unsorted.patch.{}", patch));
+        let gids: Vec<u32> = (0..=12).collect();
+        run_graph(&g, "unsorted", &gids, &[0, 1], &mut rng, &mut st, &mut cw);
     }
     for _ in 0..(if thorough { 300 } else { 40 }) {
         let g = v0_graph(&mut rng);
